@@ -643,6 +643,7 @@ func runC15(c *Ctx) {
 		c15Shape(c, s, []int{0, 3, 3}, rr)
 	}
 	c15Errors(c)
+	c15Aliasing(c)
 	r.Notes = append(r.Notes,
 		"type stability is only demanded for shapes without interface-typed parts; for interface containers the harness demands value-or-error (no panic) and, on success, well-formedness, type agreement and contents",
 		"conv.TypeOf of a typed nil pointer and conv.ValEnvOf(nil) are accepted as documented behaviour (type from the static type / empty environment)")
@@ -886,6 +887,62 @@ func c15ErrorCases() []errCase {
 		{"nesting-limit", "cyclic value p.Next = p", cy, true, true},
 		{"nesting-limit", "self-referential interface x = &x", selfRefIface(), true, true},
 		{"nesting-limit", "self-referential interface inside a slice", []interface{}{selfRefIface()}, true, true},
+	}
+}
+
+// aliasing pointers: two pointers of DIFFERENT types holding the same address
+// (a struct and its first field, an array and its element 0) and the same
+// pointee reached twice.  Each must convert to its own pointee's value; a
+// conversion that remembers pointees by address alone confuses them.
+type c15Cust struct {
+	ID   int    `yae:"id"`
+	Name string `yae:"name"`
+}
+type c15Order struct {
+	CustomerID *int     `yae:"customer_id"`
+	Customer   *c15Cust `yae:"customer"`
+}
+type c15Order2 struct {
+	Customer   *c15Cust `yae:"customer"`
+	CustomerID *int     `yae:"customer_id"`
+}
+type c15Arr struct {
+	First *int    `yae:"first"`
+	All   *[2]int `yae:"all"`
+}
+type c15Twice struct {
+	A *c15Cust `yae:"a"`
+	B *c15Cust `yae:"b"`
+}
+
+func c15Aliasing(c *Ctx) {
+	cu := &c15Cust{7, "ann"}
+	arr := &[2]int{4, 5}
+	cases := []struct {
+		name string
+		v    interface{}
+	}{
+		{"struct{*int -> &c.ID; *Cust -> c}", c15Order{&cu.ID, cu}},
+		{"struct{*Cust -> c; *int -> &c.ID}", c15Order2{cu, &cu.ID}},
+		{"struct{*int -> &arr[0]; *[2]int -> arr}", c15Arr{&arr[0], arr}},
+		{"struct{a, b *Cust -> the same c}", c15Twice{cu, cu}},
+		{"[]interface{}{&c.ID, c}", []interface{}{&cu.ID, &cu.ID}},
+		{"map[string]*Cust{x: c, y: c}", map[string]*c15Cust{"x": cu, "y": cu}},
+	}
+	for _, k := range cases {
+		in := "aliasing pointers: " + k.name
+		c.eval(in, true)
+		res, panicked := c15Convert(c, "C15/converts/aliasing", in, k.v)
+		if panicked {
+			continue
+		}
+		if res.verr != nil {
+			c.fail("C15/converts/aliasing/rejected", in, "supported data converts to a value", "error: "+res.verr.Error(), "")
+			continue
+		}
+		if d := sameContent(reflect.ValueOf(k.v), res.vl, "v"); d != "" {
+			c.fail("C15/contents/aliasing-pointers", in, "contents equal the Go value", d, "")
+		}
 	}
 }
 
